@@ -1,4 +1,4 @@
-\* thorough: liveness ShutdownEndsRun with 2 clients (no symmetry under liveness)
+\* thorough: liveness ShutdownEndsRun with 2 clients and one worker (no symmetry under liveness)
 CONSTANTS
   c1 = c1
   c2 = c2
@@ -10,13 +10,14 @@ CONSTANTS
   MaxMsgs = 1
   MaxPings = 0
   Workers <- WS1
-  Heartbeat = TRUE
-  Reply <- ReplyUni
-  ExtScript <- ExtBc
+  Heartbeat = FALSE
+  Reply <- ReplyNone
+  ExtScript <- ExtNone
   Mode = "free"
   ShutdownMode = "any"
   Dev = {}
 SPECIFICATION Spec
+VIEW MCView
 INVARIANTS TypeOK
 PROPERTY ShutdownEndsRun
 CHECK_DEADLOCK FALSE
